@@ -253,7 +253,9 @@ def St.startDlFor (s : St) (k : Nat) : St :=
 
 /-- `startPieceDownloaders()` -/
 def St.startDls (s : St) : St :=
-  if s.status = .downloading then
+  -- `status() == Downloading` does not imply that a piece picker exists (info known, nothing allocated):
+  -- `startPieceDownloaders` returns early then (fix for finding C08-F5)
+  if s.status = .downloading && s.loaded then
     s.peers.foldl (fun s p => if (s.findDl p.k).isNone then s.startDlFor p.k else s) s
   else s
 
